@@ -86,6 +86,7 @@ struct Shared {
     dead: bool,
     cur_call: usize,              // index of the adapter call in progress (set by the driver)
     faults: Vec<(String, usize)>, // consumed fault (E<code> | Z) and the adapter call it hit
+    eof_signalled: bool,          // the wrapped reader answered Ok(0) to a non-empty buffer
 }
 type Sh = Rc<RefCell<Shared>>;
 fn new_shared(limit: usize) -> Sh {
@@ -139,6 +140,9 @@ impl Read for SReader {
         };
         buf[..n].copy_from_slice(&self.src[self.pos..self.pos + n]);
         self.pos += n;
+        if n == 0 && !buf.is_empty() {
+            sh.eof_signalled = true;
+        }
         sh.events.push(format!("{}>{}", buf.len(), n));
         Ok(n)
     }
@@ -305,6 +309,7 @@ struct ReaderRun {
     faults: String,
     ended_eof: bool,
     stopped: bool,
+    eof_signalled: bool,
 }
 fn run_reader(q: u32, lgwin: u32, staging: usize, src: &[u8], script: Script, sizes: &[usize], drain: usize, maxreads: usize) -> ReaderRun {
     let limit = 50_000 + 40 * src.len() + script.list.len();
@@ -343,7 +348,8 @@ fn run_reader(q: u32, lgwin: u32, staging: usize, src: &[u8], script: Script, si
     let _ = catch_unwind(AssertUnwindSafe(move || drop(cr)));
     let events = sh.borrow().events.clone();
     let faults = faults_str(&sh);
-    ReaderRun { res, events, out, consumed_src, faults, ended_eof, stopped }
+    let eof_signalled = sh.borrow().eof_signalled;
+    ReaderRun { res, events, out, consumed_src, faults, ended_eof, stopped, eof_signalled }
 }
 fn parse_sizes(s: &str) -> (Vec<usize>, usize, usize) {
     let p: Vec<&str> = s.split('/').collect();
@@ -365,7 +371,7 @@ fn case_reader(t: &[&str]) -> String {
         ("na", "na")
     };
     format!(
-        "res={} rlog={} out={} # allok={} dec={} ref={} faults={} consumed={}",
+        "res={} rlog={} out={} # allok={} dec={} ref={} faults={} consumed={} eofseen={}",
         rle(&run.res),
         clip(rle(&run.events)),
         bytes_sig(&run.out),
@@ -373,7 +379,8 @@ fn case_reader(t: &[&str]) -> String {
         dec,
         rf,
         run.faults,
-        run.consumed_src
+        run.consumed_src,
+        run.eof_signalled as u8
     )
 }
 
@@ -498,6 +505,7 @@ struct CopyRun {
     rfaults: String,
     wfaults: String,
     consumed_src: usize,
+    eof_signalled: bool,
 }
 fn run_copy(q: i32, lgwin: i32, ibuf: usize, obuf: usize, src: &[u8], rs: Script, ws: Script) -> CopyRun {
     let limit = 50_000 + 40 * src.len() + rs.list.len() + ws.list.len();
@@ -522,7 +530,8 @@ fn run_copy(q: i32, lgwin: i32, ibuf: usize, obuf: usize, src: &[u8], rs: Script
     let revents = rsh.borrow().events.clone();
     let wevents = wsh.borrow().events.clone();
     let sink = got.borrow().clone();
-    CopyRun { res, revents, wevents, sink, rfaults: faults_str(&rsh), wfaults: faults_str(&wsh), consumed_src: r.pos }
+    let eof_signalled = rsh.borrow().eof_signalled;
+    CopyRun { res, revents, wevents, sink, rfaults: faults_str(&rsh), wfaults: faults_str(&wsh), consumed_src: r.pos, eof_signalled }
 }
 fn case_copy(t: &[&str]) -> String {
     let (q, lgwin, ibuf, obuf) = (t[1].parse().unwrap(), t[2].parse().unwrap(), t[3].parse().unwrap(), t[4].parse().unwrap());
@@ -541,7 +550,7 @@ fn case_copy(t: &[&str]) -> String {
         ("na", "na")
     };
     format!(
-        "res={} rlog={} wlog={} sink={} # allok={} dec={} ref={} rfaults={} wfaults={} consumed={}",
+        "res={} rlog={} wlog={} sink={} # allok={} dec={} ref={} rfaults={} wfaults={} consumed={} eofseen={}",
         run.res,
         clip(rle(&run.revents)),
         clip(rle(&run.wevents)),
@@ -551,7 +560,8 @@ fn case_copy(t: &[&str]) -> String {
         rf,
         run.rfaults,
         run.wfaults,
-        run.consumed_src
+        run.consumed_src,
+        run.eof_signalled as u8
     )
 }
 
